@@ -31,7 +31,7 @@ func TestC19MainTransports(t *testing.T) {
 		cfg.Proxy.DialTimeout = time.Duration(rapid.IntRange(0, 100000).Draw(t, "dial")) * time.Millisecond
 		cfg.Proxy.KeepAliveTimeout = time.Duration(rapid.IntRange(0, 100000).Draw(t, "ka")) * time.Millisecond
 		transport.SetConfig(cfg) // main(): transport.SetConfig(cfg)
-		h := newHTTPProxy(cfg, &proxy.HttpStatsHandler{Noroute: metrics.DiscardProvider{}.NewCounter("x")})
+		h := flexAs[*proxy.HTTPProxy](newHTTPProxy, cfg, &proxy.HttpStatsHandler{Noroute: metrics.DiscardProvider{}.NewCounter("x")}, firstListen(cfg))
 		hx.Eval()
 		for name, rt := range map[string]http.RoundTripper{"Transport": h.Transport, "InsecureTransport": h.InsecureTransport} {
 			tr, ok := rt.(*http.Transport)
